@@ -38,6 +38,7 @@ type step struct {
 	Nil      bool      `json:"nil"`
 	Change   abs.MDesc `json:"change"`
 	Resolved bool      `json:"resolved"`
+	Owner    []int     `json:"owner"` // per position: the instance holding it after the step, 0 = nobody
 }
 
 type pathCase struct {
@@ -234,7 +235,7 @@ func TestC05(t *testing.T) {
 	rnd := rand.New(rand.NewSource(abs.Seed()))
 	reps := abs.EnvInt("VERIF_REPS", 3)
 	m := abs.EnvInt("VERIF_M", 2)
-	npaths, nprobed, nsteps := 0, 0, 0
+	npaths, nprobed, nsteps, nwatched := 0, 0, 0, 0
 	probed := map[string]bool{}
 
 	if in != "" {
@@ -257,6 +258,9 @@ func TestC05(t *testing.T) {
 					last.Post[0].Ts++
 				}
 				n := len(c.Steps[0].Post)
+				if len(c.Owner) > 0 {
+					m = len(c.Owner) // the number of token positions of the model that produced the path
+				}
 				resolved := false
 				var final *ring.Desc
 				var emb abs.Embedding
@@ -273,6 +277,12 @@ func TestC05(t *testing.T) {
 					}
 					abs.SleepUntil(base + 1)
 					d := ring.NewDesc()
+					// on the last repetition a long-lived reader watches the replica (watch_test.go)
+					var w *watcher
+					if rep == reps-1 {
+						w = newWatcher(res, emb, n, newProber(res, emb, n).keys)
+						defer w.close()
+					}
 					for si, s := range c.Steps {
 						abs.SleepUntil(base + s.Now)
 						if s.Act == "Tick" {
@@ -310,6 +320,12 @@ func TestC05(t *testing.T) {
 								return nil
 							}
 						}
+						if w != nil {
+							nwatched++
+							if !w.after(d, s.Owner, c, fmt.Sprintf("step %d (%s)", si+1, s.Act)) {
+								return nil
+							}
+						}
 					}
 					final = d
 					base += maxNow + 1
@@ -323,8 +339,11 @@ func TestC05(t *testing.T) {
 					visible := abs.ViaRingCodec(final)
 					visible.RemoveTombstones(time.Time{})
 					okV = pr.probe(visible, c.Owner, "visible", c)
-					okS = pr.probe(final, c.Owner, "stored", c)
-					nprobed += 2
+					nprobed++
+					if abs.Tier() == "thorough" { // also with the tombstones a consul/etcd-backed client would see
+						okS = pr.probe(final, c.Owner, "stored", c)
+						nprobed++
+					}
 				}
 				if okV && okS {
 					res.Cases++
@@ -348,7 +367,18 @@ func TestC05(t *testing.T) {
 			every := abs.EnvInt("VERIF_TPROBE_EVERY", 4)
 			rec := abs.RingRecorder{N: n, M: tm, Replicas: 3, Steps: abs.EnvInt("VERIF_TSTEPS", 400), MaxNow: abs.EnvInt("VERIF_TMAXNOW", 60), SharedPct: 100,
 				Seed: abs.Seed()*15485863 + 5, Path: filepath.Join(traceDir, "ring_trace.ndjson"), SigPrefix: "ring:trace", Corrupt: abs.EnvInt("VERIF_CORRUPT_TRACE", 0)}
+			watchers := map[int]*watcher{}
+			defer func() {
+				for _, w := range watchers {
+					w.close()
+				}
+			}()
 			rec.AfterStep = func(r int, d *ring.Desc, ev int, emb abs.Embedding) {
+				if watchers[r] == nil {
+					watchers[r] = newWatcher(res, emb, n, newProber(res, emb, n).keys)
+				}
+				nwatched++
+				watchers[r].after(d, nil, fmt.Sprintf("recorded event %d", ev), fmt.Sprintf("replica %d", r+1))
 				if ev%every != 0 {
 					return
 				}
@@ -367,5 +397,6 @@ func TestC05(t *testing.T) {
 	res.AddExtra("paths", npaths)
 	res.AddExtra("merge_steps_executed", nsteps)
 	res.AddExtra("descriptors_probed", nprobed)
+	res.AddExtra("steps_watched_by_long_lived_reader", nwatched)
 	res.Write(t)
 }
